@@ -168,6 +168,136 @@ def member_case(M, m, n, kkind, bkind, lbkind, direction, relative=True, via="fu
     return goals
 
 
+def unbounded_case(M, m, n, kkind, direction):
+    """ub = inf: the gamut is the cone  {K(A x + baseline) : x >= lb};  membership goes through non-negative least squares on the corner cloud of [lb, lb+1]"""
+    from dreye.api.convex import in_hull_from_A
+    A, K, base, lb, ub, lbl, _ = fs.mk_system(M, m, n, kkind, "vec", "poswide", "inf")
+    fs.assume_nonneg_system(M, A, K, base, np.zeros((1, 1)), kkind)
+    Aeff, beff = fs.effective_model(A, K, base, kkind)
+    stubs.qhull_reset(); symcp.reset()
+    cs = corners(n)
+    rows = 1
+    if direction == "sound":
+        B = M.real("B", (rows, m), sample=lambda r, s: r.uniform(0.5, 9.0, size=s))
+    else:
+        sx = M.real("sx", (rows, n), sample=lambda r, s: r.uniform(0.0, 2.0, size=s) * r.choice([0.0, 1.0, 1.0], size=s))
+        for v in np.asarray(sx).ravel():
+            M.assume(v >= 0)
+        B = np.array([fs.predict(Aeff, beff, [lbl[j] + sx[i][j] for j in range(n)]) for i in range(rows)], dtype=object if M.symbolic else float)
+        if M.symbolic:
+            B = B.view(symnp.SymArray)
+    res = np.atleast_1d(np.asarray(in_hull_from_A(B, A, lb, ub, K=K, baseline=base)))
+    goals = {"shape": res.shape == (rows,)}
+    if not goals["shape"]:
+        return goals
+    if not M.symbolic:
+        # the NNLS verdict `isclose(residual, 0)` depends on the accuracy of the real solver: only the false-accept clause is asserted in float mode
+        for i in range(rows):
+            from scipy.optimize import lsq_linear as sls
+            r = sls(np.array(Aeff, dtype=float), np.array(list(np.asarray(B)[i]), dtype=float) - np.array(beff, dtype=float) - np.array(Aeff, dtype=float) @ np.array(lbl, dtype=float),
+                    bounds=(0, np.inf), tol=1e-12)
+            dist = float(np.sqrt(2 * r.cost))
+            if direction == "sound":
+                goals[f"row{i}: reported in gamut => reproducible by intensities >= lb"] = (not bool(res[i])) or dist <= 1e-5
+        return goals
+    M.tag("affine-cone")
+    solves = list(symcp.SOLVES)
+    goals["one NNLS solve per row"] = len(solves) == rows
+    if len(solves) != rows:
+        return goals
+    for i in range(rows):
+        rep = res[i] if isinstance(res[i], SB) else SB(z3.BoolVal(bool(res[i])))
+        rec = solves[i]; var = rec["problem"].variables()[0]
+        lam_star = list(np.asarray(rec["xstar"][var]).ravel())
+        goals[f"row{i}: one weight per corner of the unit box above lb"] = len(lam_star) == len(cs)
+        if len(lam_star) != len(cs):
+            continue
+        bi = list(np.asarray(B)[i])
+        if direction == "sound":
+            # residual written with the componentwise minimum `off` of the corner captures (as the code shifts cloud and target); `off` is the capture of
+            # x = lb (cone apex) because A, K >= 0 -- separate goal below -- so the residual is that of the intensities x = lb + sum(weights * corner) >= lb
+            Pc = [fs.predict(Aeff, beff, [lbl[j] + c[j] for j in range(n)]) for c in cs]
+            off = [symnp._reduce(symnp.smin, np.array([Pc[c][d] for c in range(len(cs))], dtype=object), None) for d in range(m)]
+            resid = fs._sum([(fs._sum([lam_star[c] * (Pc[c][d] - off[d]) for c in range(len(cs))]) - (bi[d] - off[d])) *
+                             (fs._sum([lam_star[c] * (Pc[c][d] - off[d]) for c in range(len(cs))]) - (bi[d] - off[d])) for d in range(m)])
+            goals[f"row{i}: reported in gamut => non-negative corner weights reproduce the shifted target within the 1e-8 residual"] = M.implies(
+                rep, M.conj(M.le(0, np.array(lam_star, dtype=object)), M.le(resid.sqrt(), 1e-8)))
+            goals[f"row{i}: the shift is the capture of x = lb (cone apex)"] = M.eq(np.array(off, dtype=object), np.array(fs.predict(Aeff, beff, lbl), dtype=object))
+        else:
+            lam = []
+            for c in cs:
+                k = [j for j in range(n) if c[j]]
+                lam.append(sx[i][k[0]] if len(k) == 1 else symnp.const(0))
+            lam = [v if isinstance(v, S) else S(lift(v)) for v in lam]
+            inst, obj_alt, cons_alt = symcp.optimality_instance(rec, {var: np.array(lam, dtype=object).view(symnp.SymArray)})
+            goals[f"row{i}: the weights (s_k on the k-th unit corner) are feasible for the NNLS problem and have zero residual"] = M.conj(SB(cons_alt), M.eq(obj_alt, 0))
+            goals[f"row{i}: capture of intensities >= lb is reported in gamut"] = (rep, [inst, lift(obj_alt) == 0, cons_alt])
+    return goals
+
+
+def chromatic_case(M, m, n, kkind):
+    """estimator.in_hull(B, normalized=True): the chromaticities (L1-normalised captures) of the non-zero gamut vertices and of the targets are what is tested"""
+    from dreye.api.estimator import ReceptorEstimator
+    A, K, base, lb, ub, lbl, ubl = fs.mk_system(M, m, n, kkind, "vec", "pos", "fin")
+    for j in range(n):
+        M.assume(ubl[j] > lbl[j])
+    fs.assume_nonneg_system(M, A, K, base, np.zeros((1, 1)), kkind)
+    for v in np.asarray(base):
+        M.assume(v > 0)  # every vertex has positive total capture (no zero rows to remove)
+    rows = 2
+    B = M.real("B", (rows, m), sample=lambda r, s: r.uniform(0.2, 3.0, size=s))
+    for v in np.asarray(B).ravel():
+        M.assume(v > 0)
+    Aeff, beff = fs.effective_model(A, K, base, kkind)
+    est = ReceptorEstimator(np.ones((m, 2)), K=K, baseline=base)
+    est.A = A; est.Epsilon = "heteroscedastic"; est.lb = lb; est.ub = ub
+    stubs.qhull_reset(fulldim=lambda P: True)
+    res = np.atleast_1d(np.asarray(est.in_hull(B, normalized=True)))
+    goals = {"shape": res.shape == (rows,)}
+    if not goals["shape"]:
+        return goals
+    cs = corners(n)
+    Pc = [fs.predict(Aeff, beff, corner_x(c, lbl, ubl)) for c in cs]
+    # L1 normalisation written as the code's normaliser does (sum of absolute values; captures are positive here)
+    def chroma(v):
+        if M.symbolic:  # the normaliser's documented contract (vf.stubs.normalize_stub): row / sum|x|, all-zero rows unchanged
+            return list(np.asarray(stubs.normalize_stub(np.array([list(v)], dtype=object).view(symnp.SymArray), norm="l1", axis=1))[0])
+        tot = float(sum(abs(float(x_)) for x_ in v))
+        return [float(x_) / (tot if tot != 0 else 1.0) for x_ in v]
+    if m == 2:
+        # dichromat: the chromatic gamut is the interval spanned by the second-receptor share of the vertices
+        ph = [chroma(p)[1] for p in Pc]
+        for i in range(rows):
+            bh = chroma(list(np.asarray(B)[i]))[1]
+            if M.symbolic:
+                lo = symnp._reduce(symnp.smin, np.array(ph, dtype=object), None); hi = symnp._reduce(symnp.smax, np.array(ph, dtype=object), None)
+                rep = res[i] if isinstance(res[i], SB) else SB(z3.BoolVal(bool(res[i])))
+                goals[f"row{i}: in the chromatic gamut <=> chromaticity between the extreme vertex chromaticities"] = SB(rep.t == z3.And(lift(lo) <= lift(bh), lift(bh) <= lift(hi)))
+            else:
+                goals[f"row{i}: in the chromatic gamut <=> chromaticity between the extreme vertex chromaticities"] = bool(res[i]) == bool(min(ph) - 1e-12 <= bh <= max(ph) + 1e-12)
+        return goals
+    if not M.symbolic:
+        from scipy.optimize import linprog
+        Ph = np.array([chroma(p) for p in Pc], dtype=float)
+        for i in range(rows):
+            bh = np.array(chroma(list(np.asarray(B)[i])), dtype=float)
+            r = linprog(np.zeros(len(cs)), A_eq=np.vstack([Ph.T, np.ones(len(cs))]), b_eq=np.append(bh, 1.0), bounds=[(0, None)] * len(cs), method="highs")
+            goals[f"row{i}: verdict agrees with the LP on the chromaticities"] = bool(res[i]) == (r.status == 0)
+        return goals
+    calls = list(stubs.QHULL_CALLS)
+    goals["one chromatic membership query"] = len(calls) == 1
+    if len(calls) != 1:
+        return goals
+    P_, B_ = np.asarray(calls[0]["P"]), np.asarray(calls[0]["B"])
+    # barycentric -> cartesian map of the regular simplex with unit edges, m = 3: corners (0,0), (1,0), (1/2, sqrt(3)/2)
+    r3 = S(lift(0.75)).sqrt()
+    T = [[0, 0], [1, 0], [S(lift(0.5)), r3]]
+    tocart = lambda q: [fs._sum([q[k] * T[k][d] for k in range(3)]) for d in range(2)]
+    goals["cloud handed to qhull = chromaticities of all gamut vertices"] = P_.shape == (len(cs), 2) and M.eq(P_, np.array([tocart(chroma(p)) for p in Pc], dtype=object))
+    goals["targets handed to qhull = chromaticities of the targets"] = B_.shape == (rows, 2) and M.eq(B_, np.array([tocart(chroma(list(np.asarray(B)[i]))) for i in range(rows)], dtype=object))
+    return goals
+
+
 def lp_member(Aeff, beff, b, lb, ub):
     from scipy.optimize import linprog
     Ae = np.array(Aeff, dtype=float); be = np.array(beff, dtype=float)
@@ -206,4 +336,9 @@ def cases(tier, seed):
         add(f"2x3 {direction} via estimator K=mat", m=2, n=3, kkind="mat", bkind="vec", lbkind="pos", direction=direction, via="estimator")
         add(f"3x2 {direction} fewer sources than receptors K=vec", m=3, n=2, kkind="vec", bkind="vec", lbkind="pos", direction=direction, _tags=("nnls-fallback",))
         add(f"2x1 {direction} single source K=vec", m=2, n=1, kkind="vec", bkind="vec", lbkind="pos", direction=direction, _tags=("nnls-fallback",))
+        for (m, n, kk) in ((2, 2, "none"), (2, 3, "none"), (2, 2, "vec")):
+            C.append(dict(name=f"{m}x{n} unbounded sources {direction} K={kk}", body="unbounded_case", kwargs=dict(m=m, n=n, kkind=kk, direction=direction),
+                          opts=dict(timeout_ms=120000, n_validate=2), expect_tags=("affine-cone",)))
+    for (m, n, kk) in ((2, 2, "vec"), (2, 3, "mat"), (3, 3, "vec")) + (((3, 4, "vec"),) if big else ()):
+        C.append(dict(name=f"{m}x{n} chromatic membership K={kk}", body="chromatic_case", kwargs=dict(m=m, n=n, kkind=kk), opts=dict(timeout_ms=120000, n_validate=2)))
     return C
